@@ -6,6 +6,8 @@ package v2
 
 //@ ghost func chartName(ch *Chart) string = ite(ch.Metadata == nil, "", ch.Metadata.Name)
 
+//@ ghost func filesNonNilList(fs []*File) bool = forall j int :: 0 <= j && j < len(fs) ==> fs[j] != nil
+
 //@ func (*Chart).Name
 //@   props C14
 //@   requires ch != nil
@@ -17,3 +19,4 @@ package v2
 //@   requires ch != nil
 //@   pure
 //@   ensures result == ch.dependencies
+//@   marks forall j int :: 0 <= j && j < len(result) ==> result[j] != nil && result[j].Metadata != nil && filesNonNilList(result[j].Templates) && filesNonNilList(result[j].Files) && filesNonNilList(result[j].Raw)
